@@ -87,15 +87,15 @@ type vsPathMod struct {
 }
 
 type vsFilter struct {
-	Kind    string // redirect | rewrite | reqhdr | resphdr | unsupported
-	Scheme  *string
-	Host    *string
-	Port    *int32
-	Code    *int
-	Path    *vsPathMod
-	Set     [][2]string
-	Add     [][2]string
-	Remove  []string
+	Kind   string // redirect | rewrite | reqhdr | resphdr | unsupported
+	Scheme *string
+	Host   *string
+	Port   *int32
+	Code   *int
+	Path   *vsPathMod
+	Set    [][2]string
+	Add    [][2]string
+	Remove []string
 }
 
 type vsRule struct {
@@ -741,7 +741,7 @@ var (
 )
 
 func vsPick(r *vu.Rng, pool []string) string { return pool[r.Intn(len(pool))] }
-func vsPtr(s string) *string                { return &s }
+func vsPtr(s string) *string                 { return &s }
 
 // vsSub draws a small sub-pool so that objects of one state compete for the same names.
 func vsSub(r *vu.Rng, pool []string, n int) []string {
